@@ -35,6 +35,8 @@ func runC04(e *Env) error {
 			}
 		}
 	}
+	// (a') literal text longer than the output buffers (32 KiB steps), multi-byte, through Render and RenderTo
+	bigTextOracle(e)
 	// (b)+(c) chunks, print tags, comments
 	n = e.N(1200, 60000)
 	for i := 0; i < n && !r.Full(); i++ {
